@@ -31,6 +31,7 @@ func (m Message) MarshalNBT(w io.Writer) error {
 	enc.NetworkFormat(true)
 	var err error
 	if m.Translate != "" {
+		m.With = m.With.homogeneous()
 		err = enc.Encode(translateMsg(m), "")
 	} else {
 		err = enc.Encode(rawMsgStruct(m), "")
@@ -40,6 +41,29 @@ func (m Message) MarshalNBT(w io.Writer) error {
 	}
 	_, err = w.Write(buf.Bytes()[1:]) // skip the TagCompound byte
 	return err
+}
+
+// homogeneous makes the arguments encodable as one NBT list: when plain strings and
+// components are mixed, the strings are sent as text components.
+func (t TranslateArgs) homogeneous() TranslateArgs {
+	mixed := false
+	for _, v := range t {
+		if _, ok := v.(string); !ok {
+			mixed = true
+		}
+	}
+	if !mixed {
+		return t
+	}
+	out := make(TranslateArgs, len(t))
+	for i, v := range t {
+		if s, ok := v.(string); ok {
+			out[i] = Text(s)
+		} else {
+			out[i] = v
+		}
+	}
+	return out
 }
 
 func (m *Message) UnmarshalNBT(tagType byte, r nbt.DecoderReader) error {
